@@ -29,13 +29,13 @@ CLAIMED["C14"] = {
 
 CLAIMED["C02"] = {
     "text": "Coq theorems over group/ungroup, AffineQuantizer and the dequantizer as generated from the source on every run: ungroup inverts group for every rank/shape, both axes and every admissible group size (first axis: reshape; last axis: the two 3-d permutations cancel); every element is coded with the scale and zero-point of its own cell; in exact arithmetic, for a range containing zero and the element, zero-point and code lie in [0,2^bits-1] (no int8/uint8 wrap) and the dequantized value is within half a step; the same nearest-point / half-step statement in IEEE arithmetic with an explicit rounding slack. The implementation is audited in exact rational arithmetic group by group over degenerate classes and compared bit for bit with the Flocq evaluation of the generated model.",
-    "note": "Trusted: Coq kernel + vm_compute, Flocq, Reals axioms, translators, coq/Lib vocabulary (reshape/permute/broadcast/reduce) tied by correspondence. MaxOptimizer's range is proved (any number type) to be the hull of each cell and zero, cell by cell (max_optimize_cells). IEEE level (Flocq, three working formats): for every finite element within 2^(prec-2) steps, every finite positive scale and integer zero-point of [0,L], the code is an integer of [0,L] stored without uint8/int8 wrap, the value is finite and a closest point of the affine grid up to an explicit slack, hence within half a step + slack inside the grid's span (C02_nearest_float*, C02_half_step_float*). PARTIAL: the float rounding inside MaxOptimizer (scale and zero-point as floats) and requantization stability are decided by the audit + correspondence only.",
+    "note": "Trusted: Coq kernel + vm_compute, Flocq, Reals axioms, translators, coq/Lib vocabulary (reshape/permute/broadcast/reduce) tied by correspondence. MaxOptimizer's range is proved (any number type) to be the hull of each cell and zero, cell by cell (max_optimize_cells). IEEE level (Flocq, three working formats): for every finite element within 2^(prec-2) steps, every finite positive scale and integer zero-point of [0,L], the code is an integer of [0,L] stored without uint8/int8 wrap, the value is finite and a closest point of the affine grid up to an explicit slack, hence within half a step + slack inside the grid's span (C02_nearest_float*, C02_half_step_float*). Requantization stability is a theorem for all three working formats (C02_requant_stable_*: s*(c-zp) quantized again gives c, bits <= 4). PARTIAL: the float rounding inside MaxOptimizer (scale and zero-point as floats) is decided by the audit + correspondence only.",
     "design": "6/C02",
     "technique": "Coq proof over source-generated model + reflexivity tie + vm_compute correspondence + exact rational audit",
 }
 CLAIMED["C03"] = {
     "text": "Coq theorems over AbsmaxOptimizer / SymmetricQuantizer as generated from the source on every run, for any number type, rank and shape: exactly one scale per reduction cell (kept-axis index), computed from the members of that cell only (locality of the scale); every element is quantized and dequantized with the scale of the cell it projects onto and nothing else (locality of the codes); in exact arithmetic no element saturates under its own cell's scale, which equals absmax/qmax. The implementation is audited (saturation, full range, dtype/shape of the scale) and by a metamorphic stream (perturb / rescale / permute the other cells).",
-    "note": "Trusted: Coq kernel + vm_compute, Flocq, Reals axioms, translators, coq/Lib vocabulary tied by correspondence. The int2/int4 optimizer has the same cell-level theorem (max_optimize_cells: per cell, from that cell's minimum and maximum extended by zero). PARTIAL: absmax_scale (calibration) is covered by the audit and correspondence; float rounding of the scale is in the audit's tolerance formulas only.",
+    "note": "Trusted: Coq kernel + vm_compute, Flocq, Reals axioms, translators, coq/Lib vocabulary tied by correspondence. The int2/int4 optimizer has the same cell-level theorem (max_optimize_cells: per cell, from that cell's minimum and maximum extended by zero). IEEE level (Flocq, three working formats, qint8): the scale A/127 of a cell is within one rounding of absmax/qmax and every element of the cell is dequantized within half a step + 254*u*s + C01's slack (no saturation beyond rounding), for a quotient in the normal range and a representable grid (C03_no_saturation_float*). PARTIAL: absmax_scale (calibration), subnormal scales and the float8 / int2 / int4 versions of the float-level statement are covered by the audit and correspondence only.",
     "design": "6/C03",
     "technique": "Coq proof over source-generated model + reflexivity tie + metamorphic differential runs",
 }
@@ -76,7 +76,7 @@ CLAIMED["C06"] = {
 
 CLAIMED["C07"] = {
     "text": "Coq theorems: in exact arithmetic, for any contraction length, the quantized route (matmul of codes times the product of scales) and the float-activation route equal the product of the DEQUANTIZED operands plus bias; the int32 accumulator of the integer GEMM does not wrap for int8 codes and K < 2^17 and denotes the same number as a float accumulation; the CPU/CUDA/MPS routing decisions and the aten.mm integer condition are read from the source on every run and proved to select each kernel only for the operand dtypes (and size classes) it accepts. Every case of a large grid (rows, features incl. non-multiples of 4/8/16/32, batch ranks, dtypes, activation and weight qtypes, bias) runs in a sacrificial subprocess and is compared with the float64 product of the dequantized operands under an analytic accumulation bound; all routes are called directly on the same operands.",
-    "note": "Trusted: Coq kernel, Reals axioms; gen_mm.py; torch.matmul/_int_mm/_weight_int8pack_mm MODELLED as sums of products (their rounding is bounded by the audit's analytic bound, not proved). Known findings: F14 (int8pack segfault for in_features%16!=0), F23 (float16 scale product underflow), F24 (_int_mm with in_features=1). CUDA/MPS routes never executed.",
+    "note": "Trusted: Coq kernel, Reals axioms; gen_mm.py; torch.matmul/_int_mm/_weight_int8pack_mm MODELLED as accumulation trees over the K products of the contraction; for ANY such tree (any order, with or without FMA, any binary format) the IEEE-level theorem C07_accumulation_error (Flocq) bounds the error by ((1+u)^h - 1)*sum|a_i b_i| + n(1+u)^h*eta, of which the audit's tolerance is the first-order instance; that torch's kernels are such trees is assumed. Known findings: F14 (int8pack segfault for in_features%16!=0), F23 (float16 scale product underflow), F24 (_int_mm with in_features=1). CUDA/MPS routes never executed.",
     "design": "6/C07",
     "technique": "Coq proof (exact arithmetic, routing) + decision extraction tie + crash-isolated differential runs",
 }
